@@ -243,12 +243,14 @@ theorem Get_eq (zV : V) (h : Bytes → Nat) (fuel : Nat) (m : S_StrMap V) (hI : 
   -- semantic case splits first; every leaf is closed by one `simp` from facts about the primitives
   by_cases h0 : m.hashtable.arr.length = 0
   · have h0' : slen m.hashtable = 0 := by unfold slen; omega
-    simp [StrMap_Get, h0, h0', liftG, optOf]
+    have h0s : 0 = slen m.hashtable := h0'.symm
+    simp [StrMap_Get, h0, h0', ← h0s, liftG, optOf]
   · have h0' : ¬ slen m.hashtable = 0 := by unfold slen; omega
+    have h0s : ¬ 0 = slen m.hashtable := fun c => h0' c.symm
     by_cases hz : m.hashtable.arr.length % SMap.two32 = 0
     · have hgm : ∀ a, goMod .u32 a (wrap .u32 (slen m.hashtable)) = .panic "divzero" := by
         intro a; rw [wlen]; simp [goMod, hz]
-      simp [StrMap_Get, h0, h0', hz, hgm, liftG]
+      simp [StrMap_Get, h0, h0', h0s, hz, hgm, liftG]
     · have hzI : ¬ ((m.hashtable.arr.length % SMap.two32 : Nat) : Int) = 0 := by omega
       have hmod : wrap .u32 (Int.tmod ((h s % SMap.two32 : Nat) : Int) ((m.hashtable.arr.length % SMap.two32 : Nat) : Int))
           = ((h s % SMap.two32 % (m.hashtable.arr.length % SMap.two32) : Nat) : Int) := by
@@ -270,32 +272,34 @@ theorem Get_eq (zV : V) (h : Bytes → Nat) (fuel : Nat) (m : S_StrMap V) (hI : 
       cases hg : m.hashtable.arr[slot]? with
       | none =>
         have hsg : sget m.hashtable (slot : Int) = .panic "index" := by simp [sget, hg]
-        simp [StrMap_Get, h0', hgm, hsg, liftG]
+        simp [StrMap_Get, h0', h0s, hgm, hsg, liftG]
       | some i =>
         have hsg : sget m.hashtable (slot : Int) = .ok i := by simp [sget, hg]
         by_cases hi : i < 0
-        · simp [StrMap_Get, h0', hgm, hsg, hi, liftG, optOf]
+        · simp [StrMap_Get, h0', h0s, hgm, hsg, hi, liftG, optOf]
         · have hit : (absMap m).items[i.toNat]? = (m.items.arr[i.toNat]?).map absItem := by simp [absMap]
           simp only [hi, if_false, hit]
           cases hge : m.items.arr[i.toNat]? with
           | none =>
             have hsi : sget m.items i = .panic "index" := by simp [sget, hi, hge]
-            simp [StrMap_Get, h0', hgm, hsg, hi, hsi, liftG]
+            simp [StrMap_Get, h0', h0s, hgm, hsg, hi, hsi, liftG]
           | some e =>
             have hsi : sget m.items i = .ok e := by simp [sget, hi, hge]
             have he := hI.items e (List.mem_of_getElem? hge)
             have hil : i.toNat < m.items.arr.length := (List.getElem?_eq_some_iff.mp hge).1
             rcases key_eq m.data e he with ⟨t, h1, h2⟩ | ⟨h1, h2⟩
             · by_cases hk : strOf t = s
-              · simp [StrMap_Get, h0', hgm, hsg, hi, hsi, h1, h2, hk, hdata, liftG, optOf]; rfl
-              · have wj : wrap .i32 (i + 1) = i + 1 := wrap32 _ (by omega) (by omega)
+              · have hks : s = strOf t := hk.symm
+                simp [StrMap_Get, h0', h0s, hgm, hsg, hi, hsi, h1, h2, hk, ← hks, hdata, liftG, optOf]; rfl
+              · have hks : ¬ s = strOf t := fun c => hk c.symm
+                have wj : wrap .i32 (i + 1) = i + 1 := wrap32 _ (by omega) (by omega)
                 have hj1 : (i + 1).toNat = i.toNat + 1 := by omega
                 have hlim : toI32 ((List.map absItem m.items.arr).length % SMap.two32) = (m.items.arr.length : Int) := by
                   rw [List.length_map]; exact toI32_small _ hn
                 simp only [Option.map_some, h2, hk, hdata, if_false, hitems]
                 rw [hlim, Int.toNat_natCast, List.take_of_length_le (by simp), ← hj1, ← Int.toNat_natCast slot]
                 generalize hR : SMap.scan m.data.arr _ _ s = R
-                simp [StrMap_Get, h0', hgm, hsg, hi, hsi, h1, hk, wj]
+                simp [StrMap_Get, h0', h0s, hgm, hsg, hi, hsi, h1, hk, hks, wj]
                 rw [← hR]
                 apply Get_tail zV m hI s (slot : Int) (by omega) (wrap .i32 (slen m.items)) wl
                 · omega
@@ -306,21 +310,25 @@ theorem Get_eq (zV : V) (h : Bytes → Nat) (fuel : Nat) (m : S_StrMap V) (hI : 
                   · cases hsj : sget m.items j with
                     | ok e' =>
                       by_cases hsl : e'.slot = (slot : Int)
-                      · cases hss : sslice m.data e'.off (wrap .i64 (e'.off + wrap .i64 e'.sz)) with
+                      · have hsls : (slot : Int) = e'.slot := hsl.symm
+                        cases hss : sslice m.data e'.off (wrap .i64 (e'.off + wrap .i64 e'.sz)) with
                         | ok t' =>
-                          by_cases hk' : strOf t' = s <;>
-                            simp [StrMap_Get_loop1, getStep, hc, hsj, hsl, hss, hk']
+                          by_cases hk' : strOf t' = s
+                          · simp [StrMap_Get_loop1, getStep, hc, hsj, hsl, hss, hk']
+                          · have hk's : ¬ s = strOf t' := fun c => hk' c.symm
+                            simp [StrMap_Get_loop1, getStep, hc, hsj, hsl, hss, hk', hk's]
                         | panic w => simp [StrMap_Get_loop1, getStep, hc, hsj, hsl, hss]
                         | oob => simp [StrMap_Get_loop1, getStep, hc, hsj, hsl, hss]
                         | err x => exact nomatch x
-                      · simp [StrMap_Get_loop1, getStep, hc, hsj, hsl]
+                      · have hsls : ¬ (slot : Int) = e'.slot := fun c => hsl c.symm
+                        simp [StrMap_Get_loop1, getStep, hc, hsj, hsl, hsls]
                     | panic w => simp [StrMap_Get_loop1, getStep, hc, hsj]
                     | oob => simp [StrMap_Get_loop1, getStep, hc, hsj]
                     | err x => exact nomatch x
                   · simp [StrMap_Get_loop1, getStep, hc]
                 · intro x; rfl
                 · intro st; rfl
-            · simp [StrMap_Get, h0', hgm, hsg, hi, hsi, h1, h2, hdata, liftG]
+            · simp [StrMap_Get, h0', h0s, hgm, hsg, hi, hsi, h1, h2, hdata, liftG]
 
 /-! ## calcHashtableSlots (utils.go) -/
 
@@ -346,7 +354,8 @@ theorem calcSlots_cases (n : Nat) :
   by_cases hb : b ≥ 32
   · right
     have : ((b : Nat) : Int) ≥ 32 := by omega
-    exact ⟨"too many items", by simp [this], by simp [hb]⟩
+    have this2 : ¬ ((b : Nat) : Int) < 32 := by omega
+    exact ⟨"too many items", by simp [this, this2], by simp [hb]⟩
   · left
     have hb' : ¬ ((b : Nat) : Int) ≥ 32 := by omega
     have hlt : b < Facts.bits2primes.length := by omega
@@ -356,7 +365,8 @@ theorem calcSlots_cases (n : Nat) :
     have hb0 : ¬ ((b : Nat) : Int) < 0 := by omega
     refine ⟨p.toNat, ?_, ?_, by omega, by omega⟩
     · have : ((p.toNat : Nat) : Int) = p := by omega
-      simp [hb', tblGet, hb0, hg, this]
+      have hb2 : ((b : Nat) : Int) < 32 := by omega
+      simp [hb', hb2, tblGet, hb0, hg, this]
     · simp [hb, hg]
 
 theorem calcHashtableSlots_eq (n : Nat) : liftG Int.toNat (calcHashtableSlots (n : Int)) = SMap.calcSlots n := by
@@ -571,17 +581,17 @@ theorem makeHashtable_eq (zV : V) (sorter : List (SMap.Item V) → List (SMap.It
             else ((absMap m).ht ++ (absMap m).spare).extract 0 p) ∧
         htA.spare.toArray = (if ((absMap m).ht ++ (absMap m).spare).size < p then #[]
             else ((absMap m).ht ++ (absMap m).spare).extract p ((absMap m).ht ++ (absMap m).spare).size) ∧
-        ((scap m.hashtable < (p : Int) ∧ smake 0 (p : Int) (p : Int) = .ok htA) ∨
-         (¬ scap m.hashtable < (p : Int) ∧ sslice m.hashtable 0 (p : Int) = .ok htA)) := by
+        ((scap m.hashtable < (p : Int) ∧ ¬ (p : Int) ≤ scap m.hashtable ∧ smake 0 (p : Int) (p : Int) = .ok htA) ∨
+         (¬ scap m.hashtable < (p : Int) ∧ (p : Int) ≤ scap m.hashtable ∧ sslice m.hashtable 0 (p : Int) = .ok htA)) := by
       rw [hsz]
       by_cases hc : m.hashtable.arr.length + m.hashtable.spare.length < p
       · have hc' : scap m.hashtable < (p : Int) := by unfold scap; omega
         have c1 : ¬ ((p : Int) < 0) := by omega
-        exact ⟨⟨List.replicate p 0, []⟩, by simp, by simp [hc], by simp [hc], Or.inl ⟨hc', by simp [smake, c1]⟩⟩
+        exact ⟨⟨List.replicate p 0, []⟩, by simp, by simp [hc], by simp [hc], Or.inl ⟨hc', by omega, by simp [smake, c1]⟩⟩
       · have hc' : ¬ scap m.hashtable < (p : Int) := by unfold scap; omega
         have c1 : ¬ ((p : Int) < 0 ∨ (p : Int) > scap m.hashtable) := by unfold scap; omega
         refine ⟨⟨(m.hashtable.arr ++ m.hashtable.spare).take p, (m.hashtable.arr ++ m.hashtable.spare).drop p⟩,
-          by simp; omega, ?_, ?_, Or.inr ⟨hc', by simp [sslice, c1, Sl.mem]⟩⟩
+          by simp; omega, ?_, ?_, Or.inr ⟨hc', by omega, by simp [sslice, c1, Sl.mem]⟩⟩
         · simp [hc, absMap, List.take_append]
         · simp only [hc, absMap, if_false, List.append_toArray, List.extract_toArray, List.extract_eq_take_drop]
           rw [List.take_of_length_le (by simp)]
@@ -617,9 +627,9 @@ theorem makeHashtable_eq (zV : V) (sorter : List (SMap.Item V) → List (SMap.It
       cases SMap.fillFirst (sorter ((absMap m).items.map (fun e => { e with slot := e.slot % p }))) 0
           (Array.replicate p (-1)) <;> simp [outOf, absMap, finishOut]
     rw [hRHS]
-    rcases hfacts with ⟨c, hm⟩ | ⟨c, hm⟩ <;>
-    ( simp only [StrMap_makeHashtable, hsl, h1, wp, c, hm, Out.bind_eq, Out.bind_ok, Out.pure_eq, decide_true, decide_false,
-        if_true, if_false, Bool.false_eq_true]
+    rcases hfacts with ⟨c, c2, hm⟩ | ⟨c, c2, hm⟩ <;>
+    ( simp only [StrMap_makeHashtable, hsl, h1, wp, c, c2, hm, Out.bind_eq, Out.bind_ok, Out.pure_eq, decide_true, decide_false,
+        if_true, if_false, Bool.false_eq_true, ge_iff_le, gt_iff_lt]
       -- first loop
       refine lift_bind_ok (mh_loop1 p _ ?_ ?_ m.items.arr [] 0 _ rfl (by simp) hs) ?_
       · intro i m; simp [StrMap_makeHashtable_loop1]
@@ -791,10 +801,12 @@ theorem LoadFromSlice_err_eq (zV : V) (h : Bytes → Nat) (sorter : List (SMap.I
       simp [StrMap_LoadFromSlice_loop1, this]
     · intro k rest sz hk
       have : ¬ llen k > 4294967295 := by unfold llen; unfold SMap.maxU32 at hk; omega
-      simp [StrMap_LoadFromSlice_loop1, this]
+      have ec : llen k + sz = sz + llen k := Int.add_comm _ _
+      simp [StrMap_LoadFromSlice_loop1, this, ec]
     · simp [absLoad, errOf, outOf, SMap.LErr.msg]
   · have hlen' : ¬ llen kk = llen vv := by unfold llen; omega
-    simp [StrMap_LoadFromSlice, hlen, hlen', absLoad, errOf, outOf, SMap.LErr.msg]
+    have hlen'' : ¬ llen vv = llen kk := by unfold llen; omega
+    simp [StrMap_LoadFromSlice, hlen, hlen', hlen'', absLoad, errOf, outOf, SMap.LErr.msg]
 
 theorem bind_congr_left {α β : Type} {x y : GM α} {K : α → GM β} {R : GM β} (hxy : x = y) (hk : y.bind K = R) :
     x.bind K = R := by
@@ -823,10 +835,12 @@ theorem LoadFromSlice_err_state (zV : V) (h : Bytes → Nat) (sorter : List (S_m
       simp [StrMap_LoadFromSlice_loop1, this]
     · intro k rest sz hk
       have : ¬ llen k > 4294967295 := by unfold llen; unfold SMap.maxU32 at hk; omega
-      simp [StrMap_LoadFromSlice_loop1, this]
+      have ec : llen k + sz = sz + llen k := Int.add_comm _ _
+      simp [StrMap_LoadFromSlice_loop1, this, ec]
     · simp
   · have hlen' : ¬ llen kk = llen vv := by unfold llen; omega
-    exact ⟨"kv len not match", by simp [StrMap_LoadFromSlice, hlen']⟩
+    have hlen'' : ¬ llen vv = llen kk := by unfold llen; omega
+    exact ⟨"kv len not match", by simp [StrMap_LoadFromSlice, hlen', hlen'']⟩
 
 theorem appendLoop_len (h : Bytes → Nat) : ∀ (l : List (Bytes × V)) (off : Nat),
     (SMap.appendLoop h l off).2.length = l.length := by
@@ -878,7 +892,8 @@ theorem LoadFromSlice_eq (zV : V) (h : Bytes → Nat) (sorter : List (SMap.Item 
       simp [StrMap_LoadFromSlice_loop1, this]
     · intro k rest sz hk
       have : ¬ llen k > 4294967295 := by unfold llen; unfold SMap.maxU32 at hk; omega
-      simp [StrMap_LoadFromSlice_loop1, this]
+      have ec : llen k + sz = sz + llen k := Int.add_comm _ _
+      simp [StrMap_LoadFromSlice_loop1, this, ec]
     · -- the three `[:0]` resets, then the two capacity tests: in all four cases data and items are empty
       simp only [Out.bind_ok, hs1, hvv, Out.bind_eq, Out.pure_eq]
       split <;> simp only [hmk, Out.bind_ok, Out.pure_eq] <;> split <;>
@@ -1211,8 +1226,10 @@ theorem StrStore_Load_eq (fuel : Nat) (s : S_StrStore) (ss : List Bytes) (hb : p
   have hmk0 : lmake (0 : Int) ((ss.length : Nat) : Int) ((ss.length : Nat) : Int) = .ok (List.replicate ss.length 0) := by
     have : ¬ (((ss.length : Nat) : Int) < 0) := by omega
     simp [lmake, this]
+  have wt' : wrap .i64 (((ss.length : Nat) : Int) * 4) = ((4 * ss.length : Nat) : Int) := by
+    rw [Int.mul_comm]; exact wt
   unfold SMap.storeLoad
-  simp only [StrStore_Load, hll, wt, Out.bind_eq]
+  simp only [StrStore_Load, hll, wt, wt', Out.bind_eq]
   refine abs_bind_congr (hl1 _ ?_ ?_ ?_) ?_
   · intro f t i hc
     simp [StrStore_Load_loop1, hc]
@@ -1222,7 +1239,9 @@ theorem StrStore_Load_eq (fuel : Nat) (s : S_StrStore) (ss : List Bytes) (hb : p
     simp [StrStore_Load_loop1, hlt, hg, this]
   · intro f t i x hlt hg hx
     have : ¬ llen x > 4294967295 := by unfold llen; unfold SMap.maxU32 at hx; omega
-    simp [StrStore_Load_loop1, hlt, hg, this]
+    have ec : llen x + t = t + llen x := Int.add_comm _ _
+    have ec1 : 1 + i = i + 1 := Int.add_comm _ _
+    simp [StrStore_Load_loop1, hlt, hg, this, ec, ec1]
   · by_cases hany : (ss.any fun x => decide (x.length > SMap.maxU32)) = true
     · simp [hany, absLd, ldOut]
     · have hT : ((4 * ss.length : Nat) : Int) + ((totalLen ss : Nat) : Int) = ((packLen ss : Nat) : Int) := by omega
@@ -1230,12 +1249,14 @@ theorem StrStore_Load_eq (fuel : Nat) (s : S_StrStore) (ss : List Bytes) (hb : p
       have hl2 := fun L a b bufA J hbuf hJ => sl_loop2 ss L a b fuel ss [] ⟨bufA⟩ [] [] J 0 0 (by simp) (by simp) (by simp)
         hbuf hJ (by simp) hf (by simpa using hb) hn
       simp only [List.nil_append, List.length_nil] at hl2
-      split
+      by_cases hc : scap s.buf < ((packLen ss : Nat) : Int)
       · -- a fresh buffer
+        have hc2 : ¬ ((packLen ss : Nat) : Int) ≤ scap s.buf := by omega
         have hmk : smake (0 : UInt8) ((packLen ss : Nat) : Int) ((packLen ss : Nat) : Int) =
             .ok ⟨List.replicate (packLen ss) 0, []⟩ := by
           have : ¬ (((packLen ss : Nat) : Int) < 0) := by omega
           simp [smake, this]
+        simp only [hc, hc2, ge_iff_le, gt_iff_lt, decide_true, decide_false, if_true, if_false, Bool.false_eq_true]
         simp only [hmk, Out.bind_ok, Out.pure_eq]
         refine abs_bind_congr (hl2 _ ?_ ?_ _ (List.replicate (packLen ss) 0) rfl (by simp)) ?_
         · intro f s ix off i hc
@@ -1246,11 +1267,18 @@ theorem StrStore_Load_eq (fuel : Nat) (s : S_StrStore) (ss : List Bytes) (hb : p
           have w3 : wrap .i64 (4 + llen x) = 4 + llen x := by unfold llen; exact wrap64 _ (by omega) (by omega)
           have w4 : wrap .i64 (off + (4 + llen x)) = off + (4 + llen x) := by unfold llen; exact wrap64 _ (by omega) (by omega)
           have w5 : wrap .i64 (i + 1) = i + 1 := wrap64 _ (by omega) (by omega)
-          simp only [StrStore_Load_loop2, hlt, decide_true, if_true, hg, Out.bind_eq, Out.bind_ok, w1, w2, w3, w4, w5]
+          have ec1 : 4 + off = off + 4 := Int.add_comm _ _
+          have ec2 : llen x + 4 = 4 + llen x := Int.add_comm _ _
+          have ec3 : llen x + (off + 4) = off + 4 + llen x := Int.add_comm _ _
+          have ec4 : 4 + llen x + off = off + (4 + llen x) := Int.add_comm _ _
+          have ec5 : 1 + i = i + 1 := Int.add_comm _ _
+          simp only [StrStore_Load_loop2, hlt, decide_true, if_true, hg, Out.bind_eq, Out.bind_ok, ec1, ec2, ec3, ec4, ec5,
+            w1, w2, w3, w4, w5]
         · simp [absLd, ldOut, absStore, hany]
       · -- the old buffer re-sliced
-        rename_i hc
-        have hc' : ¬ scap s.buf < ((packLen ss : Nat) : Int) := by simpa using hc
+        have hc' : ¬ scap s.buf < ((packLen ss : Nat) : Int) := hc
+        have hc2 : ((packLen ss : Nat) : Int) ≤ scap s.buf := by omega
+        simp only [hc, hc2, ge_iff_le, gt_iff_lt, decide_true, decide_false, if_true, if_false, Bool.false_eq_true]
         have c1 : ¬ (((packLen ss : Nat) : Int) < 0 ∨ ((packLen ss : Nat) : Int) > scap s.buf) := by omega
         have c2 : ¬ ((0 : Int) < 0 ∨ (0 : Int) > ((packLen ss : Nat) : Int)) := by omega
         have hsl : sslice s.buf 0 ((packLen ss : Nat) : Int) =
@@ -1269,7 +1297,13 @@ theorem StrStore_Load_eq (fuel : Nat) (s : S_StrStore) (ss : List Bytes) (hb : p
           have w3 : wrap .i64 (4 + llen x) = 4 + llen x := by unfold llen; exact wrap64 _ (by omega) (by omega)
           have w4 : wrap .i64 (off + (4 + llen x)) = off + (4 + llen x) := by unfold llen; exact wrap64 _ (by omega) (by omega)
           have w5 : wrap .i64 (i + 1) = i + 1 := wrap64 _ (by omega) (by omega)
-          simp only [StrStore_Load_loop2, hlt, decide_true, if_true, hg, Out.bind_eq, Out.bind_ok, w1, w2, w3, w4, w5]
+          have ec1 : 4 + off = off + 4 := Int.add_comm _ _
+          have ec2 : llen x + 4 = 4 + llen x := Int.add_comm _ _
+          have ec3 : llen x + (off + 4) = off + 4 + llen x := Int.add_comm _ _
+          have ec4 : 4 + llen x + off = off + (4 + llen x) := Int.add_comm _ _
+          have ec5 : 1 + i = i + 1 := Int.add_comm _ _
+          simp only [StrStore_Load_loop2, hlt, decide_true, if_true, hg, Out.bind_eq, Out.bind_ok, ec1, ec2, ec3, ec4, ec5,
+            w1, w2, w3, w4, w5]
         · simp [absLd, ldOut, absStore, hany]
 
 /-! ## Str2Str: Len, Get -/
@@ -1399,7 +1433,8 @@ theorem Str2Str_LoadFromSlice_eq (h : Bytes → Nat) (sorter : List (SMap.Item I
       outOf (SMap.s2sLoad h sorter (absS2S sm) kk vv) := by
   by_cases hne : kk.length ≠ vv.length
   · have hlen' : ¬ llen kk = llen vv := by unfold llen; omega
-    simp [Str2Str_LoadFromSlice, SMap.s2sLoad, hne, hlen', absS2SLoad, errOf, outOf, SMap.LErr.msg]
+    have hlen'' : ¬ llen vv = llen kk := by unfold llen; omega
+    simp [Str2Str_LoadFromSlice, SMap.s2sLoad, hne, hlen', hlen'', absS2SLoad, errOf, outOf, SMap.LErr.msg]
   have hlen : kk.length = vv.length := by omega
   have hlen' : llen kk = llen vv := by unfold llen; omega
   have hl1 := fun L a b c => s2s_loop1 sm L a b c kk
